@@ -84,14 +84,6 @@ def lemma_floor_div(d, bits=32):
     return name
 
 
-def _round1_model(qterm):
-    """CPython round(x, 1) for |x| small: x*10 exactly (wide), round-half-even to integral,
-    then the correctly rounded double of r/10.   Returns the double term."""
-    # float_round for ndigits small uses dtoa correctly rounded decimal -> equals nearest
-    # double to the decimal value d/10 where d = round_half_even(x*10 exact).
-    raise NotImplementedError
-
-
 def lemma_amps(maxw=65535):
     """round(fl(w/220.0), 1) is the double nearest to k/10 with |22k - w| <= 11."""
     name = "L2_amps_%d" % maxw
@@ -192,34 +184,45 @@ class FQuot(SymFloat):
     def __init__(self, n, d):
         self.n = n
         self.d = d
+        self._floor = None
 
     def floor_int(self):
         """floor(fl(n/d)) as an exact integer"""
+        if getattr(self, "_floor", None) is not None:
+            return self._floor
         n, d = self.n, self.d
         if isinstance(n, int):
             import math
 
-            return math.floor(n / d)
-        if d & (d - 1) == 0:
+            r = math.floor(n / d)
+        elif d & (d - 1) == 0:
             if n.hi < (1 << 53) and n.lo > -(1 << 53):
-                return n // d
-            raise Unsupported("FQuot beyond 2^53")
-        if n.lo < -(1 << 31) or n.hi >= (1 << 32):
-            raise Unsupported("float quotient of an integer outside [-2^31, 2^32) by %d" % d)
-        lemma_floor_div(d, 32)
-        if n.lo >= 0:
-            return n // d
-        # negative numerators: fl(n/d) < 0 exactly when n < 0 (sign of an IEEE quotient);
-        # the exact value is only needed for n >= 0, for n < 0 a fresh negative integer is sound
-        from . import engine as E
+                r = n // d
+            else:
+                raise Unsupported("FQuot beyond 2^53")
+        else:
+            if n.lo < -(1 << 31) or n.hi >= (1 << 32):
+                raise Unsupported("float quotient of an integer outside [-2^31, 2^32) by %d" % d)
+            lemma_floor_div(d, 32)
+            if n.lo >= 0:
+                r = n // d
+            else:
+                from . import engine as E
 
-        p = E.cur()
-        if bool(n >= 0):
-            return n // d
-        f = p.fresh_bv("negfloor", 40)
-        fi = SymInt(f, -(1 << 39), -1)
-        p.constrain(f < 0)
-        return fi
+                p = E.cur()
+                if bool(n >= 0):
+                    r = SymInt.mk(n.t, 0, n.hi) // d
+                else:
+                    # n < 0: an IEEE quotient of a negative by a positive is negative and, by
+                    # monotonicity of rounding, lies in [n, 0): floor is a negative integer >= n.
+                    # (sound over-approximation; the exact value is never needed for n < 0)
+                    lo = n.lo
+                    wv = max(2, (-lo).bit_length() + 1)
+                    f = p.fresh_bv("negfloor", wv)
+                    p.constrain(z3.And(f >= lo, f <= -1))
+                    r = SymInt(f, lo, -1)
+        self._floor = r
+        return r
 
     def to_int(self):
         # int() truncates toward zero; for n >= 0 this is floor
